@@ -559,3 +559,55 @@ M2('c14-k2-boundary-helper-alias-lookahead-one-short', 'C14', 'R10',
    _k2_boundary_helper(helper=_K2_HELPER.replace("next_chunk[:delimiter_len_1]", "next_chunk[: delimiter_len_1 - 1]"),
                        call="                find_on_boundary = self._find_on_boundary\n                delimiter_pos = find_on_boundary(\n"
                             "                    delimiter, delimiter_len_1, next_chunk\n                )\n"), also=('C13',))
+
+# ---------------------------------------------------- "refactoring + break" (fourth preserving wave, k4-c13-2): the tail of the synchronous
+# _finalize_read_until reshaped into a guard clause (`if not consume_bytes: return ret_value`), a boolean local bound once per arm from the
+# verification (`delimiter_follows = self.peek(consume_bytes) == delimiter` / `delimiter_follows = self._buffer_pos == delimiter_pos`) and a
+# single `if not delimiter_follows: raise DelimiterError`.  R3 reads the branch on the local as the branch on the comparison recorded at its
+# binding on the path (silent on the preserving edit itself) -- plus the mistake R3 exists for
+_K4_TAIL = ("        if consume_bytes:\n            if delimiter_pos < 0:\n                if self.peek(consume_bytes) != delimiter:\n"
+            "                    raise DelimiterError('expected delimiter missing')\n            elif self._buffer_pos != delimiter_pos:\n"
+            "                # NOTE(vytas): If we are going to consume the delimiter the\n"
+            "                #   quick way (i.e., skipping the above peek() check), we must\n"
+            "                #   make sure it is directly succeeding the result.\n"
+            "                raise DelimiterError('expected delimiter missing')\n\n            self._buffer_pos += consume_bytes\n\n        return ret_value\n")
+_K4_PEEK = "            delimiter_follows = self.peek(consume_bytes) == delimiter\n"
+_K4_POS = "            delimiter_follows = self._buffer_pos == delimiter_pos\n"
+_K4_GUARD = "        if not delimiter_follows:\n            raise DelimiterError('expected delimiter missing')\n\n"
+
+
+def _k4_flag_tail(peek=_K4_PEEK, pos=_K4_POS, guard=_K4_GUARD):
+    return ("        if not consume_bytes:\n            return ret_value\n\n        if delimiter_pos < 0:\n" + peek + "        else:\n" + pos + "\n"
+            + guard + "        self._buffer_pos += consume_bytes\n        return ret_value\n")
+
+
+# the flag is computed but the guard clause that raises on it is gone: the delimiter length is skipped unverified
+M('c14-k4-finalize-flag-never-tested', 'C14', 'R3', S, _K4_TAIL, _k4_flag_tail(guard=""))
+# the guard raises on the wrong value of the flag
+M('c14-k4-finalize-flag-guard-inverted', 'C14', 'R3', S, _K4_TAIL,
+  _k4_flag_tail(guard="        if delimiter_follows:\n            raise DelimiterError('expected delimiter missing')\n\n"))
+# the arm without a match in the buffer presumes the delimiter follows (the peek comparison is dropped, the position arm is kept)
+M('c14-k4-finalize-flag-presumed-without-peek', 'C14', 'R3', S, _K4_TAIL, _k4_flag_tail(peek="            delimiter_follows = True\n"))
+# the flag is bound from a look at a different number of bytes than the cursor then skips
+M('c14-k4-finalize-flag-peeks-one-byte-prefix', 'C14', 'R3', S, _K4_TAIL,
+  _k4_flag_tail(peek="            delimiter_follows = delimiter.startswith(self.peek(1))\n"))
+# the position arm compares something else than the cursor
+M('c14-k4-finalize-flag-position-not-the-cursor', 'C14', 'R3', S, _K4_TAIL,
+  _k4_flag_tail(pos="            delimiter_follows = delimiter_pos >= 0\n"))
+# wave 10 through the flag: the compared bytes are TAKEN (a consuming read bound to the flag); a failed check has swallowed them
+M('c14-k4-finalize-flag-from-consuming-read', 'C14', 'R3', S, _K4_TAIL,
+  ("        if not consume_bytes:\n            return ret_value\n\n        if delimiter_pos < 0:\n"
+   "            delimiter_follows = self._read(consume_bytes) == delimiter\n"
+   "            if not delimiter_follows:\n                raise DelimiterError('expected delimiter missing')\n            return ret_value\n\n"
+   + _K4_POS.replace("            ", "        ") + _K4_GUARD + "        self._buffer_pos += consume_bytes\n        return ret_value\n"))
+# the same two mistakes at the other consuming sites, flag form
+M('c14-k4-sync-pipe-until-flag-from-read', 'C14', 'R3', S, _PIPE_TAIL,
+  "            matched = self.read(len(delimiter)) == delimiter\n            if not matched:\n                raise DelimiterError('expected delimiter missing')\n")
+M('c14-k4-async-consume-flag-never-tested', 'C14', 'R3', A,
+  "        if await self.peek(delimiter_len) != delimiter:\n            raise DelimiterError('expected delimiter missing')\n        self._buffer_pos += delimiter_len\n",
+  "        matched = (await self.peek(delimiter_len)).startswith(delimiter)\n        if matched:\n            pass\n        self._buffer_pos += delimiter_len\n")
+# negative controls: the k4-c13-2 edit itself (= _k4_flag_tail()) is silent under every property (run_seeded --dir preserving); verified with
+# --root, silent under C14: the flag annotated (`delimiter_follows: bool = ...`); bound by one conditional expression `delimiter_follows =
+# (self.peek(consume_bytes) == delimiter) if delimiter_pos < 0 else (self._buffer_pos == delimiter_pos)`; the negated flag (`missing =
+# self.peek(consume_bytes) != delimiter` / `missing = self._buffer_pos != delimiter_pos` ... `if missing: raise`); pipe_until with
+# `matched = self.peek(delimiter_len) == delimiter; if not matched: raise`
